@@ -135,15 +135,16 @@ class PolygonPixelRegion(PixelRegion):
         bbox = self.bounding_box
         ny, nx = bbox.shape
 
-        # Find position of pixel edges and recenter so that circle is at
-        # origin
-        xmin = float(bbox.ixmin) - 0.5
-        xmax = float(bbox.ixmax) - 0.5
-        ymin = float(bbox.iymin) - 0.5
-        ymax = float(bbox.iymax) - 0.5
+        # Find position of pixel edges relative to the (integer) bounding
+        # box so that the sub-sample positions, and hence the mask, do
+        # not depend on the absolute position of the polygon
+        xmin = -0.5
+        xmax = float(nx) - 0.5
+        ymin = -0.5
+        ymax = float(ny) - 0.5
 
-        vx = np.asarray(self.vertices.x, dtype=float)
-        vy = np.asarray(self.vertices.y, dtype=float)
+        vx = np.asarray(self.vertices.x, dtype=float) - bbox.ixmin
+        vy = np.asarray(self.vertices.y, dtype=float) - bbox.iymin
 
         fraction = polygonal_overlap_grid(xmin, xmax, ymin, ymax, nx, ny,
                                           vx, vy, use_exact, subpixels)
